@@ -51,7 +51,7 @@ fn req_text(method: &str, cseq_method: &str, tp: &str) -> Vec<u8> {
     .into_bytes()
 }
 
-async fn run_case(case: Vec<String>) -> String {
+pub async fn run_case(case: Vec<String>) -> String {
     let kind = case[2].clone();
     let reliable = case[3] == "1";
     let code: u16 = case[4].parse().unwrap();
